@@ -163,7 +163,7 @@ func (fs *FileSystemOperation) SaveGatewayConfig(content []byte) error {
 }
 
 func (fs *FileSystemOperation) SaveMetricsConfig(content []byte) error {
-	return fs.storeFileOnDisk(environment.GetMetricsConfigFilePath(), content)
+	return fs.storeFileOnDisk(fs.files[metricsConfigFileKey], content)
 }
 
 func (fs *FileSystemOperation) cleanUpFile(filePath string) error {
